@@ -113,13 +113,16 @@ func observe(t fataler, src string, ast *js.AST) ([]string, map[string]int, stri
 	return seq, uses, out
 }
 
+var poolRe = regexp.MustCompile(`^[a-fz]$`) // the name pool and the name that is bound nowhere
+
 func checkProgram(t fataler, prog []node) (*resolver, string) {
-	src := source(prog)
+	src, short := sourceShort(prog)
 	ast, err := js.Parse(parse.NewInputString(src), js.Options{})
 	if err != nil {
 		t.Fatalf("generated program rejected:\n%s\n%v", src, err)
 	}
 	r := resolveProgram(prog)
+	orig := ast.String()
 	seq, uses, out := observe(t, src, ast)
 	if len(seq) != len(r.occ) {
 		t.Fatalf("program:\n%s\nprints after renaming as:\n%s\nwith %d renamed identifiers, the program has %d identifier occurrences (model: %v)", src, out, len(seq), len(r.occ), r.occ)
@@ -163,6 +166,39 @@ func checkProgram(t fataler, prog []node) (*resolver, string) {
 	// the renamed program is itself a valid program
 	if _, err := js.Parse(parse.NewInputString(out), js.Options{}); err != nil {
 		t.Fatalf("program:\n%s\nthe renamed program is rejected:\n%s\n%v", src, out, err)
+	}
+	// alpha-equivalence in full: with every fresh name replaced by the name the occurrence had, the renamed text is the
+	// original program again (same tree: everything that is not a renamed identifier, property keys included, is unchanged)
+	var back strings.Builder
+	var kept []string // identifiers of the name pool that are still there: the keys of shorthand properties, nothing else
+	l := js.NewLexer(parse.NewInputString(out))
+	for i := 0; ; {
+		tt, data := l.Next()
+		if tt == js.ErrorToken {
+			if data == nil {
+				break
+			}
+			continue
+		}
+		if tt == js.IdentifierToken && freshRe.Match(data) {
+			back.WriteString(r.occ[i].name)
+			i++
+		} else {
+			if tt == js.IdentifierToken && poolRe.Match(data) {
+				kept = append(kept, string(data))
+			}
+			back.Write(data)
+		}
+	}
+	if strings.Join(kept, ",") != strings.Join(short, ",") {
+		t.Fatalf("program:\n%s\nrenamed:\n%s\nthe names that are not renamed are %v; the keys of the shorthand properties, which must stay, are %v", src, out, kept, short)
+	}
+	ast2, err := js.Parse(parse.NewInputString(back.String()), js.Options{})
+	if err != nil {
+		t.Fatalf("program:\n%s\nrenamed:\n%s\nwith the original names put back it is rejected:\n%s\n%v", src, out, back.String(), err)
+	}
+	if got := ast2.String(); got != orig {
+		t.Fatalf("program:\n%s\nrenamed:\n%s\nwith the original names put back:\n%s\nis a different program:\n%s\nthe original tree is\n%s", src, out, back.String(), got, orig)
 	}
 	return r, src
 }
